@@ -11,15 +11,16 @@ import (
 
 // Opts steer the project generator.
 type Opts struct {
-	MaxUnits   int  // default 5
-	Layout     bool // random directory layouts, test files, ignored files, non-Java files (C01)
-	Bodies     bool // method bodies with invocations (C02, C05); otherwise short bodies
-	MultiByte  bool // string literals and comments may contain multi-byte characters
-	Interfaces bool // some units are interfaces
-	NameReuse  bool // the same variable names with different types in different files/methods (C07)
-	ExtraImps  bool // imports that are unused / wildcard / static (C06)
-	MaxMethods int  // default 5
-	NoCtors    bool
+	MaxUnits    int  // default 5
+	Layout      bool // random directory layouts, test files, ignored files, non-Java files (C01)
+	Bodies      bool // method bodies with invocations (C02, C05); otherwise short bodies
+	MultiByte   bool // string literals and comments may contain multi-byte characters
+	Interfaces  bool // some units are interfaces
+	NameReuse   bool // the same variable names with different types in different files/methods (C07)
+	ScopedReuse bool // parameter/local names reused across the methods of a unit with different types, and shadowing fields (C02)
+	ExtraImps   bool // imports that are unused / wildcard / static (C06)
+	MaxMethods  int  // default 5
+	NoCtors     bool
 }
 
 // Ann is an annotation as the model records it.
@@ -153,7 +154,7 @@ func GenProject(t *rapid.T, o Opts) Project {
 		o.MaxMethods = 5
 	}
 	g := &gen{t: t, o: o, names: NewNames()}
-	if o.NameReuse {
+	if o.NameReuse || o.ScopedReuse {
 		g.reuse = []string{"repo", "item", "value", "it"}
 	}
 	nPk := rapid.IntRange(1, 3).Draw(t, "nPkgs")
@@ -352,6 +353,7 @@ type unitCtx struct {
 	depth   int
 	mb      bool
 	lambdaN int
+	pending string // name of the local variable whose initializer is being written
 	budget  int
 }
 
@@ -756,7 +758,7 @@ func (u *unitCtx) fieldName() string {
 }
 
 func (g *gen) varName(kind string) string {
-	if g.o.NameReuse && rapid.IntRange(0, 1).Draw(g.t, "reuseName") == 0 {
+	if (g.o.NameReuse || g.o.ScopedReuse) && rapid.IntRange(0, 1).Draw(g.t, "reuseName") == 0 {
 		return rapid.SampledFrom(g.reuse).Draw(g.t, "reusedName")
 	}
 	return g.names.Var(g.t)
